@@ -640,7 +640,7 @@ func (m *mp) rerunClaim(c *kit.Ctx, claim string, podKeys []string, stage string
 	prefs := &psched.Preferences{ToleratePreferNoSchedule: s.VerifC04ToleratePreferNoSchedule()}
 	var pods []sk.PodDump
 	realOK := true
-	firstErr := ""
+	firstErr, allErrs := "", ""
 	for _, k := range podKeys {
 		p := &corev1.Pod{}
 		parts := strings.SplitN(k, "/", 2)
@@ -661,6 +661,7 @@ func (m *mp) rerunClaim(c *kit.Ctx, claim string, podKeys []string, stage string
 			if firstErr == "" {
 				firstErr = k + ": " + err.Error()
 			}
+			allErrs += err.Error() + "\n"
 			if !prefs.Relax(m.ctx, q) {
 				break
 			}
@@ -680,7 +681,7 @@ func (m *mp) rerunClaim(c *kit.Ctx, claim string, podKeys []string, stage string
 	}
 	kf := ""
 	if !realOK {
-		if kf = m.kfRerun(nc, li, pods, firstErr); kf != "" {
+		if kf = m.kfRerun(nc, li, pods, allErrs); kf != "" {
 			in["kf_key"] = kf
 			c.Count("kf-shape." + kf)
 		}
@@ -732,7 +733,7 @@ func (m *mp) kfRerun(nc *v1.NodeClaim, li *launchInfo, pods []sk.PodDump, firstE
 		if v1.WellKnownLabels.Has(k) || !reqs.Has(k) {
 			continue
 		}
-		if !reqs.Get(k).Has(val) {
+		if !reqs.Get(k).Has(val) && strings.Contains(firstErr, k) { // and a pod was rejected because of that very key
 			return kfAnyExcluded
 		}
 	}
@@ -958,11 +959,9 @@ func runWorld(c *kit.Ctx, r *kit.Rand, idx int) {
 		}
 	}
 	for _, np := range w.Pools {
-		if r.Chance(1, 3) {
+		if r.Chance(1, 2) {
 			np.Spec.Template.Spec.StartupTaints = []corev1.Taint{{Key: "example.com/starting", Effect: corev1.TaintEffectNoSchedule}}
-			if r.Chance(1, 3) { // a startup taint that is also a regular taint of the pool
-				np.Spec.Template.Spec.StartupTaints = append(np.Spec.Template.Spec.StartupTaints, np.Spec.Template.Spec.Taints...)
-			}
+			// (a taint listed both as taint and as startup taint is refused by NodePool validation: not generated)
 		}
 	}
 	sk.BindDaemonPods(r, w)
@@ -1007,6 +1006,7 @@ func runWorld(c *kit.Ctx, r *kit.Rand, idx int) {
 		c.Fail(c.NextID(), "harness could not build the world: "+err.Error(), "", nil)
 		return
 	}
+	m.count = c.Count
 	marked := m.marked
 	for k := range pendingFix {
 		delete(pendingFix, k)
